@@ -28,6 +28,55 @@ def parse_counts(out):
     return tuple(int(x) for x in m.groups()) if m else None
 
 
+TARGET_STRINGS = ["vh:hubdir", "vh:hub:dir", "vh:", "v:hubdir", "é:h", "./a:b", "a/b:c", ":x", "plain", "d/plain", "ab:cd:ef", "user@host:dir", "a\\b:c", "x/:y", "::"]
+
+
+def target_section(rng, thorough, rundir, model_run, res, count):
+    """`hub.rs::split_target` observed through the real CLI: `hub-sync LOCAL T` either starts the hub over (stand-in) ssh —
+    the stub logs `-T <host> copia serve <root>` — or serves the local directory T itself. Compared with the model's `splitTarget`."""
+    strings = list(TARGET_STRINGS)
+    alpha = ["a", "b", ":", ":", "/", ".", "é", " "]
+    for _ in range(120 if thorough else 25):
+        s_ = "".join(rng.pick(alpha) for _ in range(rng.range(1, 6)))
+        if not s_.startswith("-") and not s_.startswith("/") and ".." not in s_ and s_.strip(". /") != "":
+            strings.append(s_)
+    ops, impl = [], []
+    for t in strings:
+        with Sandbox("C13") as sb:
+            lroot = sb.path("local"); os.makedirs(lroot); open(os.path.join(lroot, "f"), "wb").write(b"x")
+            log = sb.path("ssh.log")
+            sb.env["SSH_STUB_LOG"] = log
+            work = sb.path("cwd"); os.makedirs(work)
+            rc, out, err = sb.run(["hub-sync", lroot, t], timeout=60, cwd=work)
+            lines = open(log).read().split("\n")[:-1] if os.path.exists(log) else []
+            if lines:
+                args = [bytes.fromhex(x).decode("utf-8", "replace") for x in lines[0].split(" ")[:-1]]
+                # -T host copia serve root
+                if len(args) == 5 and args[0] == "-T" and args[2:4] == ["copia", "serve"]:
+                    im = f"R {hexs(args[1])} {hexs(args[4])}"
+                else:
+                    im = "R? " + " ".join(hexs(a) for a in args)
+                count("target/remote")
+            else:
+                im = "L"
+                count("target/local")
+        ops.append("target " + hexs(t)); impl.append(im)
+    path = os.path.join(rundir, "target", "ops.txt")
+    os.makedirs(os.path.dirname(path), exist_ok=True)
+    with open(path, "w") as f:
+        f.write("\n".join(ops) + "\n")
+    model = model_run(path)
+    dis = 0
+    for q, im, mo in zip(ops, impl, model + [None] * (len(ops) - len(model))):
+        if im != mo:
+            dis += 1
+            if len(res.setdefault("disagreements", [])) < 10:
+                res["disagreements"].append({"query": q, "impl": im, "model": mo})
+    if dis:
+        res["broken"].append(f"C13/corr/target: the real CLI and the model of split_target disagree on {dis} of {len(ops)} targets")
+    return len(ops), dis
+
+
 def run(pid, tier, seed, rundir, model_run):
     rng = Rng(seed ^ 0xC13)
     res = {"violations": [], "broken": [], "notes": [], "distribution": {}, "samples": []}
@@ -121,7 +170,8 @@ def run(pid, tier, seed, rundir, model_run):
             if len(res["samples"]) < 6:
                 res["samples"].append({k: (str(v)[:120]) for k, v in rep.items()})
     open(os.path.join(rundir, "ops.txt"), "w").close()
-    res.update(evaluations=nrun, distinct_nontrivial=n, n_disagreements=0, n_oracle_failures=len(res["violations"]),
+    ntgt, tdis = target_section(rng, tier == "thorough", rundir, model_run, res, count)
+    res.update(evaluations=nrun + ntgt, distinct_nontrivial=n, n_disagreements=tdis, n_oracle_failures=len(res["violations"]),
                rule="hub trees of 0–4 files and local trees of 0–7 files over names incl. nested, spaces, `.copia`-prefixed user files, conflict-looking names; some local files already on the hub (same / changed); "
                     "targets: local path, `host:root` via the SSH stand-in, and `host:root` via a relay that pauses client 1 after its List while client 2 commits different bytes at one of client 1's paths. "
                     "Oracles: exit-0 postcondition, untouched other paths, second run sends nothing; after a stale run every local file is at its path or at its conflict-copy and client 2's commit survives.")
